@@ -4,8 +4,10 @@
   they solve the system, read only the named triangle (the diagonal is taken as 1, the other triangle is arbitrary),
   and the solution is unique. The C recursion / Four-Russians base cases themselves: see M4riProofs/TrsmRec.lean
   (when present) — otherwise tied by correspondence only (`…_partial` in the sense of the evidence file).
+  In Mathlib's terms (`ML`): each solve is multiplication by Mathlib's matrix inverse of the unit triangular matrix.
 -/
 import M4riProofs.Trsm
+import M4riProofs.MathlibSpec
 namespace M4ri.Props.C04
 open M4ri M4ri.BMat
 
@@ -33,5 +35,14 @@ theorem upper_right_solves {U B : BMat} (hUr : U.nrows = B.ncols) (hUc : U.ncols
 #check @M4ri.BMat.trsmLowerRight_spec
 #check @M4ri.BMat.trsmLowerRight_congr
 #check @M4ri.BMat.trsmLowerRight_unique
+
+#check @M4ri.BMat.ML.mat_trsmLowerLeft
+#check @M4ri.BMat.ML.mat_trsmUpperLeft
+#check @M4ri.BMat.ML.mat_trsmUpperRight
+#check @M4ri.BMat.ML.mat_trsmLowerRight
+#check @M4ri.BMat.ML.det_mat_unitLower
+#check @M4ri.BMat.ML.det_mat_unitUpper
+#check @M4ri.BMat.ML.mat_unitLower_isLowerTriangular
+#check @M4ri.BMat.ML.mat_unitUpper_isUpperTriangular
 
 end M4ri.Props.C04
